@@ -278,6 +278,12 @@ theorem main (cs : Classes) (fuel : Nat) (watch : List Nat) (ops : List (Nat × 
     holdsTrace cs fuel watch ops (specTrace setVersion fuel watch cs ops) = true := by
   simp [holdsTrace, trace_eq]
 
+/-- the same for an observer of list contents (a declared empty list looks like the default) -/
+theorem main_content (emptyId : Option Nat) (cs : Classes) (fuel : Nat) (watch : List Nat) (ops : List (Nat × Key)) :
+    holdsTraceContent emptyId cs fuel watch ops
+      (contentTrace emptyId (specTrace setVersion fuel watch cs ops)) = true := by
+  simp [holdsTraceContent, trace_eq]
+
 /-- non-vacuity: keys declared out of order, requests below / between / equal /
 above; `v10 < v2` in string order -/
 example :
